@@ -157,6 +157,8 @@ def entry_states(fn, max_cases=8, alias=True):
                 st.env[p["d"]] = I(Lin.sym(x))
                 if p["n"] in ("len", "size") and fn.unit.name == "mbuff.c":
                     st.cons.append(Lin.sym(x))    # precondition: a buffer length is not negative
+                elif p.get("ts") is False or re.search(r"\bunsigned\b|\bsize_t\b", (p.get("tc") or "") + " " + (p.get("t") or "")):
+                    st.cons.append(Lin.sym(x))    # an unsigned parameter has no negative values
                 nxt.append(st)
             else:
                 st.env[p["d"]] = UNK
